@@ -21,4 +21,14 @@ def run(prop, pcfg, units, runs, seed, run_unit, Undecided):
                 f['obligation'] = 'bits32:' + f['obligation']; f['unit'] = unit + '/usize32'; f['cmd'] = r32.res['cmd']
                 out['fails'].append(f)
             out['obligations'] += ['bits32:' + o for o in r32.obs if o.startswith('safety:')]
+    # (3) big-endian build target for the properties that speak about the native byte order (cfg(target_endian = "big"))
+    if pcfg.get('big_endian_target'):
+        for unit in units:
+            rbe = run_unit(prop, unit, pcfg, None, want_canary=False, target_endian='big')
+            rel = [f for f in rbe.fails if prop in f['props']]
+            report['big_endian_target_unit_%s' % unit] = {'failed': [f['obligation'] for f in rel], 'verified': rbe.res.get('verified')}
+            for f in rel:
+                f['obligation'] = 'be-target:' + f['obligation']; f['unit'] = unit + '/be-target'; f['cmd'] = rbe.res['cmd']
+                out['fails'].append(f)
+            out['obligations'] += ['be-target:' + o for o in rbe.obs if not o.startswith(('safety:', 'termination:'))]
     return out
